@@ -10,6 +10,7 @@
 static long next_uid;
 static long last_bad_uid;
 
+#define KID_C "c+d/e"
 static void mk_good(char *out, size_t n, const char *kid, long uid)
 {
 	unsigned char k[16] = { 0 };
@@ -17,7 +18,8 @@ static void mk_good(char *out, size_t n, const char *kid, long uid)
 	k[0] = (unsigned char)(uid >> 24); k[1] = (unsigned char)(uid >> 16); k[2] = (unsigned char)(uid >> 8); k[3] = (unsigned char)uid;
 	k[15] = 0x5a;
 	k64 = vh_b64u_enc_dup(k, 16);
-	snprintf(out, n, "{\"kty\":\"oct\",\"k\":\"%s\",\"kid\":\"%s\"}", k64, kid);
+	/* the items labelled "c" carry a kid with characters of both base64 alphabets: look-ups compare kids exactly */
+	snprintf(out, n, "{\"kty\":\"oct\",\"k\":\"%s\",\"kid\":\"%s\"}", k64, !strcmp(kid, "c") ? KID_C : kid);
 	free(k64);
 }
 static void mk_bad(char *out, size_t n, long uid)
@@ -38,7 +40,7 @@ static long item_uid(const jwk_item_t *it, int *kidcode)
 {
 	const unsigned char *b; size_t bl;
 	const char *kid = jwks_item_kid(it);
-	*kidcode = !kid ? -1 : !strcmp(kid, "a") ? 0 : !strcmp(kid, "b") ? 1 : !strcmp(kid, "c") ? 2 : !strncmp(kid, "bad-", 4) ? 3 : 9;
+	*kidcode = !kid ? -1 : !strcmp(kid, "a") ? 0 : !strcmp(kid, "b") ? 1 : !strcmp(kid, KID_C) ? 2 : !strncmp(kid, "bad-", 4) ? 3 : 9;
 	if (!jwks_item_key_oct(it, &b, &bl) && bl >= 4)
 		return ((long)b[0] << 24) | ((long)b[1] << 16) | ((long)b[2] << 8) | (long)b[3];
 	if (kid && !strncmp(kid, "bad-", 4))
@@ -82,7 +84,8 @@ static void dump(long seq, int step, int op, long ret, jwk_set_t *s, const char 
 	for (size_t i = 0; i < n; i++) printf("%s[%ld,%d,%d]", i ? "," : "", uid[i], kc[i], er[i]);
 	if (past_end_nonnull) printf("%s[-9,-9,-9]", n ? "," : "");	/* get past the end must be NULL */
 	snprintf(lastbad, sizeof(lastbad), "bad-%ld", last_bad_uid);
-	printf("],[%ld,%ld,%ld,%ld,%ld,%ld],", find_uid(s, "a"), find_uid(s, "b"), find_uid(s, "c"), find_uid(s, "ab"), find_uid(s, ""), find_uid(s, lastbad));
+	printf("],[%ld,%ld,%ld,%ld,%ld,%ld,%ld,%ld,%ld,%ld,%ld],", find_uid(s, "a"), find_uid(s, "b"), find_uid(s, KID_C), find_uid(s, "ab"), find_uid(s, ""), find_uid(s, lastbad),
+	       find_uid(s, "c-d_e"), find_uid(s, "c%2Bd%2Fe"), find_uid(s, "C+D/E"), find_uid(s, "c"), find_uid(s, "c+d/e "));
 	vh_put_jstr(stdout, loaded);
 	printf("]\n");
 }
